@@ -28,6 +28,7 @@ extern unsigned usercount;   /* defined in user.c */
 
 /* ---- controlled clock -------------------------------------------------- */
 static time_t clock_now = 1000000000;
+static unsigned long long n_clock_steps;
 static unsigned long long clock_calls;
 time_t __wrap_time(time_t *t)
 {
@@ -206,6 +207,26 @@ static void recycle_history(uint32_t server, int bits, unsigned n)
 		n_recycle_lookups++;
 		if (find_user_by_ip(users[i].tun_ip) != (int) i)
 			DRV_VIOL("C18:lookup:owner-not-found", "logged-in live session %u not found by its address %s\tserver=%s bits=%d", i, dq(ntohl(users[i].tun_ip), b1), dq(server, b3), bits);
+	}
+	/* the wall clock is stepped back (NTP step, VM resume, date -s): sessions that were active a moment ago are still
+	   live, none of their slots may be handed out and every owner is still found by its address */
+	{
+		static const int STEP[] = { 1, 10, 30, 61, 3600, 86400 };
+		time_t saved = clock_now;
+		clock_now -= STEP[drv_below(6)];
+		n_clock_steps++;
+		if ((u = find_available_user()) >= 0) {
+			DRV_VIOL("C18:sessions:live-slot-handed-out", "after the clock was stepped back by %lld s a new session was given slot %d, whose session had been active just before	server=%s bits=%d",
+				 (long long)(saved - clock_now), u, dq(server, b3), bits);
+			clock_now = saved;
+			return;
+		}
+		for (i = 0; i < n; i++) {
+			n_recycle_lookups++;
+			if (find_user_by_ip(users[i].tun_ip) != (int) i)
+				DRV_VIOL("C18:lookup:owner-not-found", "after the clock was stepped back, live session %u is not found by its address %s	server=%s bits=%d", i, dq(ntohl(users[i].tun_ip), b1), dq(server, b3), bits);
+		}
+		clock_now = saved;
 	}
 	/* a random subset stays alive, the others fall silent for > 60 s */
 	clock_now += 30;
@@ -393,6 +414,8 @@ int main(int argc, char **argv)
 	DRV_X("lookup_comparisons", n_lookup);
 	DRV_X("recycle_lookups", n_recycle_lookups);
 	DRV_X("recycled_slots", n_recycle_slots);
+	DRV_X("clock_steps_back", n_clock_steps);
+	if (n_clock_steps) DRV_N("clock-stepped-back");
 	if (n_recycle_slots) DRV_N("recycle-history");
 	DRV_X("clock_reads_by_code_under_test", clock_calls);
 	{
